@@ -195,15 +195,14 @@ func scheme(r *http.Request) string {
 		return xfp
 
 	case fwd != "" && xfp == "":
-		p := strings.SplitAfterN(fwd, "proto=", 2)
-		if len(p) == 1 {
-			break
+		// look for the proto parameter itself, not for any
+		// parameter whose name ends in proto, e.g. httpproto
+		for _, kv := range strings.Split(fwd, ";") {
+			k, v, ok := strings.Cut(strings.TrimSpace(kv), "=")
+			if ok && k == "proto" {
+				return v
+			}
 		}
-		n := strings.IndexRune(p[1], ';')
-		if n >= 0 {
-			return p[1][:n]
-		}
-		return p[1]
 	}
 
 	ws := r.Header.Get("Upgrade") == "websocket"
